@@ -239,7 +239,7 @@ func TestReplay(t *testing.T) {
 	sem := make(chan struct{}, 24)
 	var samples []any
 	var slow []string
-	runs, admissions, onlineAdmissions := 0, 0, 0
+	runs, admissions, onlineAdmissions, repeats, boundarySecrets := 0, 0, 0, 0, 0
 	seedBase := tracefmt.Seed()
 	for hi, h := range hists {
 		hi, h := hi, h
@@ -251,142 +251,198 @@ func TestReplay(t *testing.T) {
 			rng := mrand.New(mrand.NewSource(seedBase*1000003 + int64(hi)))
 			proto := protos[(hi+int(seedBase))%len(protos)]
 			name := fmt.Sprintf("u%d_%d", seedBase%1000, hi)
-			en := &env{pre: h.Pre, sess: h.Sess, sidok: true}
-			w.mu.Lock()
-			w.envs[name] = en
-			w.mu.Unlock()
-			c, err := r.Dial()
-			if err != nil {
-				t.Error(err)
-				return
-			}
-			defer c.Close()
-			if err := c.WritePacket(0, rig.HandshakePayload(proto, "localhost", 25565, 2)); err != nil {
-				t.Error(err)
-				return
-			}
-			recs := []tracefmt.Rec{{"ev": "reset", "pre": h.Pre, "sess": h.Sess, "proto": proto, "hist": hi}}
-			var pub *rsa.PublicKey
-			var pubDER, token []byte
-			admitted, everRegistered := false, false
-			registered := func() bool {
-				if r.P.PlayerByName(name) != nil {
-					everRegistered = true
-					return true
-				}
-				return false
-			}
-			for _, s := range h.H {
-				rec := tracefmt.Rec{"ev": "step", "k": s.K, "name": s.Name, "tok": s.Tok, "sec": s.Sec}
-				var werr error
-				quiet := false
-				switch s.K {
-				case "start":
-					n := name
-					if s.Name == "i" {
-						n = []string{"bad name!", "x", "waytoolongusername_123", "näme", ""}[rng.Intn(5)]
-					}
-					werr = c.WritePacket(rig.SBLoginStart, rig.LoginStartPayload(proto, n, rig.OfflineUUID(n)))
-				case "enc":
-					secret := make([]byte, 16)
-					rng.Read(secret)
-					key := pub
-					tk := append([]byte(nil), token...)
-					if key == nil { // no encryption request seen: use a throw-away key (out of order anyway)
-						key = &throwAway.PublicKey
-						tk = []byte{1, 2, 3, 4}
-					}
-					var encSec, encTok []byte
-					switch s.Sec {
-					case "ok":
-						encSec, _ = rsa.EncryptPKCS1v15(rand.Reader, key, secret)
-					case "short":
-						encSec, _ = rsa.EncryptPKCS1v15(rand.Reader, key, secret[:15])
-					default:
-						encSec = make([]byte, 128)
-						rng.Read(encSec)
-					}
-					switch s.Tok {
-					case "exact":
-						encTok, _ = rsa.EncryptPKCS1v15(rand.Reader, key, tk)
-					case "wrong":
-						bad := append([]byte(nil), tk...)
-						bad[rng.Intn(len(bad))] ^= 1 << uint(rng.Intn(8))
-						encTok, _ = rsa.EncryptPKCS1v15(rand.Reader, key, bad)
-					case "empty":
-						encTok, _ = rsa.EncryptPKCS1v15(rand.Reader, key, nil)
-					case "prefix":
-						encTok, _ = rsa.EncryptPKCS1v15(rand.Reader, key, tk[:1+rng.Intn(len(tk)-1)])
-					case "longer":
-						encTok, _ = rsa.EncryptPKCS1v15(rand.Reader, key, append(append([]byte(nil), tk...), byte(rng.Intn(256)), 7))
-					default:
-						encTok = make([]byte, 128)
-						rng.Read(encTok)
-					}
-					if pubDER != nil {
-						hsh := sha1.New()
-						hsh.Write(secret)
-						hsh.Write(pubDER)
-						w.mu.Lock()
-						en.sid = javaHex(hsh.Sum(nil))
-						w.mu.Unlock()
-					}
-					werr = c.WritePacket(rig.SBLoginEncResp, (&mcwire.Buf{}).Bytes(encSec).Bytes(encTok).B)
-					// like vanilla, the client switches to encryption right after sending
-					_ = c.EnableEncryption(secret)
-				case "plugin":
-					werr = c.WritePacket(rig.SBLoginPluginResp, (&mcwire.Buf{}).VarInt(1000+rng.Intn(1000)).Bool(rng.Intn(2) == 0).B)
-					quiet = true
-				default:
-					werr = c.WritePacket(0x30+rng.Intn(0x40), nil)
-				}
-				if werr != nil {
-					t.Errorf("hist %d: write on a connection the model considers open failed: %v", hi, werr)
+			sessOf := h.Sess
+		attempts:
+			// attempt 0 is the history itself.  If it ended in an online-mode admission, attempt 1
+			// replays the same packets under the same user name after the first player has left,
+			// against a session server that no longer confirms (204): every login needs its own
+			// session confirmation.
+			for attempt := 0; attempt < 2; attempt++ {
+				en := &env{pre: h.Pre, sess: sessOf, sidok: true}
+				w.mu.Lock()
+				w.envs[name] = en
+				w.mu.Unlock()
+				c, err := r.Dial()
+				if err != nil {
+					t.Error(err)
 					return
 				}
-				t0 := time.Now()
-				re := react(c, quiet, proto, name)
-				if d := time.Since(t0); d > time.Second {
+				if err := c.WritePacket(0, rig.HandshakePayload(proto, "localhost", 25565, 2)); err != nil {
+					c.Close()
+					t.Error(err)
+					return
+				}
+				recs := []tracefmt.Rec{{"ev": "reset", "pre": h.Pre, "sess": sessOf, "proto": proto, "hist": hi, "attempt": attempt}}
+				var pub *rsa.PublicKey
+				var pubDER, token []byte
+				admitted, everRegistered := false, false
+				registered := func() bool {
+					if r.P.PlayerByName(name) != nil {
+						everRegistered = true
+						return true
+					}
+					return false
+				}
+				for _, s := range h.H {
+					rec := tracefmt.Rec{"ev": "step", "k": s.K, "name": s.Name, "tok": s.Tok, "sec": s.Sec}
+					var werr error
+					quiet := false
+					switch s.K {
+					case "start":
+						n := name
+						if s.Name == "i" {
+							n = []string{"bad name!", "x", "waytoolongusername_123", "näme", ""}[rng.Intn(5)]
+						}
+						werr = c.WritePacket(rig.SBLoginStart, rig.LoginStartPayload(proto, n, rig.OfflineUUID(n)))
+					case "enc":
+						secret := make([]byte, 16)
+						rng.Read(secret)
+						if pubDER != nil {
+							// steer the derived server id into a boundary class of the signed-hex digest
+							// (sign bit, carries, leading zeros): cheap local SHA-1 search
+							class := (hi + attempt) % 6
+							want := func(d []byte) bool {
+								switch class {
+								case 1:
+									return d[0]&0x80 != 0 && d[19] == 0x00
+								case 2:
+									return d[0]&0x80 != 0 && d[19] == 0x01
+								case 3:
+									return d[0] == 0x80
+								case 4:
+									return d[0] == 0x00 && d[1]&0x80 != 0
+								case 5:
+									return d[0] < 0x10
+								}
+								return true
+							}
+							for try := 0; try < 6000; try++ {
+								hsh := sha1.New()
+								hsh.Write(secret)
+								hsh.Write(pubDER)
+								if want(hsh.Sum(nil)) {
+									if class != 0 {
+										mu.Lock()
+										boundarySecrets++
+										mu.Unlock()
+									}
+									break
+								}
+								rng.Read(secret)
+							}
+						}
+						key := pub
+						tk := append([]byte(nil), token...)
+						if key == nil { // no encryption request seen: use a throw-away key (out of order anyway)
+							key = &throwAway.PublicKey
+							tk = []byte{1, 2, 3, 4}
+						}
+						var encSec, encTok []byte
+						switch s.Sec {
+						case "ok":
+							encSec, _ = rsa.EncryptPKCS1v15(rand.Reader, key, secret)
+						case "short":
+							encSec, _ = rsa.EncryptPKCS1v15(rand.Reader, key, secret[:15])
+						default:
+							encSec = make([]byte, 128)
+							rng.Read(encSec)
+						}
+						switch s.Tok {
+						case "exact":
+							encTok, _ = rsa.EncryptPKCS1v15(rand.Reader, key, tk)
+						case "wrong":
+							bad := append([]byte(nil), tk...)
+							bad[rng.Intn(len(bad))] ^= 1 << uint(rng.Intn(8))
+							encTok, _ = rsa.EncryptPKCS1v15(rand.Reader, key, bad)
+						case "empty":
+							encTok, _ = rsa.EncryptPKCS1v15(rand.Reader, key, nil)
+						case "prefix":
+							encTok, _ = rsa.EncryptPKCS1v15(rand.Reader, key, tk[:1+rng.Intn(len(tk)-1)])
+						case "longer":
+							encTok, _ = rsa.EncryptPKCS1v15(rand.Reader, key, append(append([]byte(nil), tk...), byte(rng.Intn(256)), 7))
+						default:
+							encTok = make([]byte, 128)
+							rng.Read(encTok)
+						}
+						if pubDER != nil {
+							hsh := sha1.New()
+							hsh.Write(secret)
+							hsh.Write(pubDER)
+							w.mu.Lock()
+							en.sid = javaHex(hsh.Sum(nil))
+							w.mu.Unlock()
+						}
+						werr = c.WritePacket(rig.SBLoginEncResp, (&mcwire.Buf{}).Bytes(encSec).Bytes(encTok).B)
+						// like vanilla, the client switches to encryption right after sending
+						_ = c.EnableEncryption(secret)
+					case "plugin":
+						werr = c.WritePacket(rig.SBLoginPluginResp, (&mcwire.Buf{}).VarInt(1000+rng.Intn(1000)).Bool(rng.Intn(2) == 0).B)
+						quiet = true
+					default:
+						werr = c.WritePacket(0x30+rng.Intn(0x40), nil)
+					}
+					if werr != nil {
+						c.Close()
+						t.Errorf("hist %d: write on a connection the model considers open failed: %v", hi, werr)
+						return
+					}
+					t0 := time.Now()
+					re := react(c, quiet, proto, name)
+					if d := time.Since(t0); d > time.Second {
+						mu.Lock()
+						slow = append(slow, fmt.Sprintf("%s/%s/%s/%s pre=%s sess=%s proto=%d -> %s closed=%v after %v", s.K, s.Name, s.Tok, s.Sec, h.Pre, h.Sess, proto, re.got, re.closed, d.Round(time.Millisecond)))
+						mu.Unlock()
+					}
+					if re.got == "encreq" {
+						pub, pubDER, token = re.pub, re.pubDER, re.token
+					}
+					if re.got == "success" {
+						admitted = true
+					}
+					rec["got"], rec["closed"], rec["registered"] = re.got, re.closed, registered()
+					recs = append(recs, rec)
+					if re.closed || re.got == "success" {
+						break
+					}
+				}
+				// settle: if not admitted, nothing may ever register under this name
+				if !admitted {
+					time.Sleep(5 * time.Millisecond)
+				}
+				regEnd := registered() || everRegistered
+				w.mu.Lock()
+				q, sidok := en.queries, en.sidok
+				w.mu.Unlock()
+				recs = append(recs, tracefmt.Rec{"ev": "end", "registered": regEnd, "queried": q, "sidok": sidok && q > 0 || q == 0})
+				mu.Lock()
+				for _, rc := range recs {
+					tw.Emit(rc)
+				}
+				runs++
+				if admitted {
+					admissions++
+					if q > 0 {
+						onlineAdmissions++
+					}
+				}
+				if len(samples) < 3 && admitted && len(h.H) > 1 {
+					samples = append(samples, recs)
+				}
+				mu.Unlock()
+				c.Close()
+				if attempt == 0 && admitted && q > 0 && (h.Sess == "ok" || h.Sess == "okany") {
+					// wait until the first player is gone, then try again without a session
+					if !rig.WaitFor(5*time.Second, func() bool { return r.P.PlayerByName(name) == nil }) {
+						break attempts
+					}
+					sessOf = "204"
 					mu.Lock()
-					slow = append(slow, fmt.Sprintf("%s/%s/%s/%s pre=%s sess=%s proto=%d -> %s closed=%v after %v", s.K, s.Name, s.Tok, s.Sec, h.Pre, h.Sess, proto, re.got, re.closed, d.Round(time.Millisecond)))
+					repeats++
 					mu.Unlock()
+					continue
 				}
-				if re.got == "encreq" {
-					pub, pubDER, token = re.pub, re.pubDER, re.token
-				}
-				if re.got == "success" {
-					admitted = true
-				}
-				rec["got"], rec["closed"], rec["registered"] = re.got, re.closed, registered()
-				recs = append(recs, rec)
-				if re.closed || re.got == "success" {
-					break
-				}
+				break
 			}
-			// settle: if not admitted, nothing may ever register under this name
-			if !admitted {
-				time.Sleep(5 * time.Millisecond)
-			}
-			regEnd := registered() || everRegistered
-			w.mu.Lock()
-			q, sidok := en.queries, en.sidok
-			w.mu.Unlock()
-			recs = append(recs, tracefmt.Rec{"ev": "end", "registered": regEnd, "queried": q, "sidok": sidok && q > 0 || q == 0})
-			mu.Lock()
-			for _, rc := range recs {
-				tw.Emit(rc)
-			}
-			runs++
-			if admitted {
-				admissions++
-				if q > 0 {
-					onlineAdmissions++
-				}
-			}
-			if len(samples) < 3 && admitted && len(h.H) > 1 {
-				samples = append(samples, recs)
-			}
-			mu.Unlock()
 		}()
 	}
 	wg.Wait()
@@ -394,5 +450,5 @@ func TestReplay(t *testing.T) {
 		t.Fatal(err)
 	}
 	tracefmt.WriteJSON("stats.json", map[string]any{"runs": runs, "admissions": admissions,
-		"online_admissions": onlineAdmissions, "slow": slow, "samples": samples, "events": tw.N, "session_queries": len(ss.Log())})
+		"online_admissions": onlineAdmissions, "repeat_logins": repeats, "boundary_secrets": boundarySecrets, "slow": slow, "samples": samples, "events": tw.N, "session_queries": len(ss.Log())})
 }
